@@ -18,6 +18,7 @@ import (
 	"io"
 	"net"
 	"sync"
+	"sync/atomic"
 	"time"
 )
 
@@ -39,6 +40,7 @@ type Wire struct {
 	xor          map[int]byte
 	readPat      []int
 	patIdx       int
+	cuts         map[int]bool // absolute read offsets no single Read may cross
 }
 
 func NewWire() *Wire {
@@ -65,6 +67,17 @@ func (w *Wire) SetXor(off int, mask byte) {
 		w.xor = map[int]byte{}
 	}
 	w.xor[off] = mask
+	w.mu.Unlock()
+}
+
+// SetCuts sets absolute stream offsets (as seen by the reader) that no single Read crosses: the byte stream is
+// handed over in segments that end exactly at every cut, whatever buffer sizes the reader uses.
+func (w *Wire) SetCuts(offs []int) {
+	w.mu.Lock()
+	w.cuts = map[int]bool{}
+	for _, o := range offs {
+		w.cuts[o] = true
+	}
 	w.mu.Unlock()
 }
 
@@ -132,6 +145,14 @@ func (w *Wire) Read(p []byte) (int, error) {
 		}
 		w.patIdx++
 	}
+	if len(w.cuts) > 0 {
+		for k := 1; k < n; k++ {
+			if w.cuts[w.nRead+k] {
+				n = k
+				break
+			}
+		}
+	}
 	copy(p, w.buf[:n])
 	w.buf = w.buf[n:]
 	w.nRead += n
@@ -197,9 +218,13 @@ func (w *Wire) ReadCalls() int { w.mu.Lock(); defer w.mu.Unlock(); return w.nRea
 
 // End is one endpoint of a duplex pipe; it implements net.Conn.
 type End struct {
-	R, W *Wire
-	name string
+	R, W   *Wire
+	name   string
+	closed atomic.Bool
 }
+
+// Closed reports whether Close was called on this end.
+func (e *End) Closed() bool { return e.closed.Load() }
 
 type addr string
 
@@ -216,6 +241,7 @@ func (e *End) SetWriteDeadline(time.Time) error { return nil }
 
 // Close closes both directions as seen from this end: the peer reads EOF, own reads fail.
 func (e *End) Close() error {
+	e.closed.Store(true)
 	e.W.CloseWrite()
 	e.R.CloseRead()
 	return nil
